@@ -37,7 +37,10 @@ pub fn fd_table() -> String {
     for fd in 0..256 {
         let r = unsafe { libc::syscall(libc::SYS_fcntl, fd as libc::c_long, libc::F_GETFD as libc::c_long, 0 as libc::c_long) };
         if r >= 0 {
-            v.push(format!("{}:{}:{}", fd, r & 1, ident(fd)));
+            // ... and the status flags of the open file description (O_NONBLOCK, O_APPEND): they are shared with whoever
+            // inherits the descriptor, so a child-side "fix-up" of them changes the parent's stream too
+            let fl = unsafe { libc::syscall(libc::SYS_fcntl, fd as libc::c_long, libc::F_GETFL as libc::c_long, 0 as libc::c_long) };
+            v.push(format!("{}:{}:{}:fl{:x}", fd, r & 1, ident(fd), fl & (libc::O_NONBLOCK | libc::O_APPEND) as i64));
         }
     }
     v.join(",")
@@ -218,6 +221,12 @@ static mut WINDOW_OUT: Option<(String, String)> = None; // (parent's pipe descri
 static mut WINDOW_DIR: Option<String> = None;
 
 /// the "other thread": a complete, unrelated launch run inside the window; its child reports the pipes it holds
+fn sigflip_hook() {
+    unsafe {
+        libc::signal(libc::SIGPIPE, libc::SIG_IGN);
+    }
+}
+
 fn window_hook() {
     let dir = unsafe { WINDOW_DIR.clone().unwrap_or_else(|| "/tmp".into()) };
     let path = format!("{}/window_fds", dir);
@@ -301,6 +310,22 @@ fn run_case(idx: usize, line: &str, dir: &str, out: &mut Out) {
     }
     let spec_text = format!("{} {} {}", spec.get("in"), spec.get("out"), spec.get("err"));
     let mut obj = make_objects(dir, &spec_text);
+    // nonblock=<digits>: the caller keeps these standard descriptors (and every file it passes) in non-blocking mode
+    if !spec.get("nonblock").is_empty() && spec.get("nonblock") != "-" {
+        let mut fds: Vec<c_int> = spec.get("nonblock").chars().filter_map(|c| c.to_digit(3)).map(|d| d as c_int).collect();
+        for f in obj.files.iter().flatten() {
+            fds.push(f.as_raw_fd());
+        }
+        for r in obj.rcs.iter().flatten() {
+            fds.push(r.as_raw_fd());
+        }
+        for fd in fds {
+            unsafe {
+                let fl = libc::syscall(libc::SYS_fcntl, fd as libc::c_long, libc::F_GETFL as libc::c_long, 0 as libc::c_long);
+                libc::syscall(libc::SYS_fcntl, fd as libc::c_long, libc::F_SETFL as libc::c_long, (fl | libc::O_NONBLOCK as i64) as libc::c_long);
+            }
+        }
+    }
     ids.extend(obj.idents.clone());
     out.line(&format!("OBJ {}", ids.iter().map(|(k, v)| format!("{}={}", k, v)).collect::<Vec<_>>().join(" ")));
     let saved_path = std::env::var_os("PATH");
@@ -314,6 +339,16 @@ fn run_case(idx: usize, line: &str, dir: &str, out: &mut Out) {
         c.stdout = Redirection::Pipe;
         if let Ok(p) = Popen::create(&["/bin/true"], c) {
             live.push(p);
+        }
+    }
+    // livecomm=1: the earlier Popens have been talked to through a Communicator with a time limit (whose pipe ends stay
+    // open while this launch happens): nothing it did to those descriptors may make them inheritable
+    let mut live_comms = vec![];
+    if spec.get("livecomm") == "1" {
+        for p in live.iter_mut() {
+            let mut c = p.communicate_start(Some(b"x".to_vec())).limit_time(std::time::Duration::from_millis(1)).limit_size(1);
+            let _ = c.read();
+            live_comms.push(c);
         }
     }
     let (argv, cfg) = build_config(&spec, &mut obj);
@@ -353,6 +388,15 @@ fn run_case(idx: usize, line: &str, dir: &str, out: &mut Out) {
         trace::PIPE_HOOK_AT = window;
         trace::READ_HOOK_ON = window_at_read;
         trace::PIPE_HOOK = if window > 0 || window_at_read { Some(window_hook) } else { None };
+    }
+    // sigflip=<k>: "another thread" changes the process-wide SIGPIPE disposition to SIG_IGN right after this launch's k-th
+    // pipe(): whatever the launch has sampled before, the child inherits what holds at the fork
+    let sigflip: usize = spec.get("sigflip").parse().unwrap_or(0);
+    if sigflip > 0 {
+        unsafe {
+            trace::PIPE_HOOK_AT = sigflip;
+            trace::PIPE_HOOK = Some(sigflip_hook);
+        }
     }
     let core = move || {
         trace::start(&faults, true);
@@ -428,6 +472,7 @@ fn run_case(idx: usize, line: &str, dir: &str, out: &mut Out) {
         }
     }
     out.line(&format!("LEFT errpath={} end={} detached={}", left_before_drop, leftover(), detached as u8));
+    drop(live_comms);
     drop(live);
     reap_all();
     drop(obj);
